@@ -52,17 +52,53 @@ def analyse(ctx):
                 c.symtab_bool[name] = q
         for name, f in S.methods('src/symbols.rs', 'SymbolTable').items():
             stmts = f['body']['stmts']
-            if f['output'].strip() == '' and stmts and all(st['k'] == 's_expr' and st['expr'].get('k') == 'mcall' and st['expr']['method'] == 'truncate'
-                                                           and 'contexts' in render(st['expr']['recv']) for st in stmts):
+            if f['output'].strip() == '' and stmts:
+                # a reset method: every statement cuts `self.contexts` / the scopes of the global context back to one entry,
+                # spelled truncate(1) or `while <more than one> { pop }`
+                alias = {}
                 what = set()
+                ok_reset = True
+
+                def target(e):
+                    r = render(e).replace(' ', '')
+                    for a_, full in alias.items():
+                        if r == a_ or r.startswith(a_ + '.'):
+                            r = full + r[len(a_):]
+                    r = r.replace('&mut', '').replace('(', '').replace(')', '')
+                    if r == 'self.contexts':
+                        return 'contexts'
+                    if r in ('self.contexts[0].symbols',):
+                        return 'scopes'
+                    return None
                 for st in stmts:
-                    rcv = render(st['expr']['recv'])
-                    arg = st['expr']['args'][0].get('value') if st['expr']['args'] else None
-                    if rcv == 'self.contexts' and arg == 1:
-                        what.add('contexts')
-                    elif 'symbols' in rcv and arg == 1:
-                        what.add('scopes')
-                c.symtab_reset[name] = what
+                    if st['k'] == 's_let' and st.get('init') is not None and st['pat'].get('k') == 'p_ident':
+                        alias[st['pat']['name']] = render(st['init']).replace(' ', '').replace('&mut', '').replace('&', '')
+                        continue
+                    e = st.get('expr') if st['k'] == 's_expr' else None
+                    if e is None:
+                        ok_reset = False
+                        break
+                    if e.get('k') == 'mcall' and e['method'] == 'truncate' and e['args'] and e['args'][0].get('value') == 1 and target(e['recv']):
+                        what.add(target(e['recv']))
+                        continue
+                    if e.get('k') == 'while':
+                        bst = e['body']['stmts']
+                        pops = [b_ for b_ in bst if b_['k'] == 's_expr' and b_['expr'].get('k') == 'mcall' and b_['expr']['method'] == 'pop']
+                        tg = target(pops[0]['expr']['recv']) if len(pops) == 1 and len(bst) == 1 else None
+                        c_ = e['cond']
+                        more = False
+                        if tg and c_.get('k') == 'binary' and c_['l'].get('k') == 'mcall' and c_['l']['method'] == 'len' and target(c_['l']['recv']) == tg:
+                            more = (c_['op'], c_['r'].get('value')) in (('>', 1), ('>=', 2), ('!=', 1))
+                        elif tg == 'contexts' and c_.get('k') == 'mcall' and path_of(c_['recv']) == ['self'] and c_['method'] in c.symtab_bool:
+                            q_ = c.symtab_bool[c_['method']]
+                            more = q_(True) is True and q_(False) is False
+                        if tg and more:
+                            what.add(tg)
+                            continue
+                    ok_reset = False
+                    break
+                if ok_reset and what:
+                    c.symtab_reset[name] = what
             if 'Option<Symbol>' in f['output'].replace(' ', '') and name != 'resolve':
                 c.symtab_resolve.add(name)
         from rules import tables
